@@ -14,6 +14,7 @@ reg("T1", termination.rule_T1, 8)
 reg("T2", termination.rule_T2, 20)
 reg("T3", termination.rule_T3, 4)
 reg("T4", termination.rule_T4, 4)
+reg("T6", termination.rule_T6, 2)
 reg("T5", termination.rule_T5, 12)
 
 for _i, _f in enumerate(("S1", "S2", "S3", "S4", "S5", "S6", "S7", "S8", "S9"), 1):
@@ -165,14 +166,15 @@ PROPS = {
               "system_byte_order and destination (P4); every stream reads n*frame_size bytes with one common n, blocks trimmed to whole frames of that stream, pass-through uses "
               "buffer_sizes[0], stop conditions, channel-count check (P5); interleave / de-interleave idioms, end-padding, dtype table (P6); every source stream is "
               "rewound with an absolute seek before it is read, so frame 0 of the output is frame 0 of the source (R1)." + NOT + "numerical equality per frame; padding values."),
-    "C13": _p(["T1", "T2", "T3", "T4", "T5", "S9", "S5z"],
+    "C13": _p(["T1", "T2", "T3", "T4", "T5", "S9", "S5z", "T6"],
               "Decides the termination/boundedness clauses visible in code shape: every `while` loop of the package carries a termination variant checked on every back-edge path of a "
               "hand-built CFG - COUNTER, BOUNDED-RAISE, LEN-CONSUME (with callee summaries), ITERATOR, VISITED-WALK, STREAM-PARSE (record consumption proven positive incl. the adapter's "
               "size>=1 guard), READ-UNTIL-EMPTY, ANCESTOR (T1); no `for` grows its own iterable (T2); every cycle of the resolved call graph is in a confirmed table with its side condition "
               "re-checked (T3); image-controlled counts/sizes are width-bounded or lazy, and the AKAI directory scan ends at the first slot whose end flag cannot be read instead of "
               "skipping it like a bad entry (T4); no regular expression of the package contains an "
               "exponential-backtracking construct - nested unbounded repeats or overlapping alternatives under a repeat - and, except for patterns only ever matched against fixed-width "
-              "struct fields, none lets two unbounded repeats share one run of characters before a point of failure (polynomial backtracking; T5, known findings G19a / G19b); a failed block read ends the data iterator with "
+              "struct fields, none lets two unbounded repeats share one run of characters before a point of failure (polynomial backtracking; T5, known findings G19a / G19b); a walk of either allocation-table decoder ends at an entry an earlier walk has marked, so that one pass over the table "
+              "is linear in its size (T6, known finding G20 for the Roland decoder); a failed block read ends the data iterator with "
               "StopIteration (S9: an empty block instead would be re-requested forever)." + NOT + "complexity constants; loops inside construct/numpy; peak memory.",
               ["sector_length/buffer_length attributes are positive (constructor sites pass positive constants)", "the element parent relation is a tree"]),
     "C14": _p(["I1", "I5", "I4", "L1t", "L4", "L2", "S1", "S2", "L9", "L8r", "I9", "I11", "N12", "O1", "N4i"],
